@@ -36,6 +36,14 @@ func (c *Check) noteDoc(d gen.GenDoc) {
 // corpus returns the deterministic corpus used by the systematic sub-batches.
 func (c *Check) corpus(n int) []gen.GenDoc {
 	docs := []gen.GenDoc{gen.TiedPager()}
+	// pages that together exhibit every feature of the generator, then pager-grammar pages, then more random ones
+	cov := gen.CoveringCorpus(n)
+	for i := 0; i < len(cov) && len(docs) < n-n/5; i++ {
+		docs = append(docs, cov[i])
+	}
+	for i := 0; len(docs) < n-n/10; i++ {
+		docs = append(docs, gen.PagerDoc(uint64(0x9A6E+i*31)))
+	}
 	for i := 0; len(docs) < n; i++ {
 		d := gen.Document(uint64(0xC0FFEE + i*7919))
 		docs = append(docs, d)
@@ -297,9 +305,9 @@ func (c *Check) randC11(r *gen.Rand, run int, seed uint64) *plan.Plan {
 			case 5:
 				ops = append(ops, plan.Op{Op: "File", Doc: id, Opt: opt})
 			case 6:
-				ops = append(ops, plan.Op{Op: "Reader", Doc: id, Opt: opt, Reader: gen.RandReader(r, len(p.Docs[di].Bytes()), true, false)})
+				ops = append(ops, plan.Op{Op: "Reader", Doc: id, Opt: opt, Reader: gen.RandReaderDoc(r, p.Docs[di].Bytes(), true, false)})
 			case 7:
-				ops = append(ops, plan.Op{Op: "File", Doc: id, Opt: opt, FS: gen.RandFS(r, len(p.Docs[di].Bytes()))})
+				ops = append(ops, plan.Op{Op: "File", Doc: id, Opt: opt, FS: gen.RandFSDoc(r, p.Docs[di].Bytes())})
 			}
 		}
 		p.Tasks = [][]plan.Op{ops}
@@ -314,9 +322,9 @@ func (c *Check) randC11(r *gen.Rand, run int, seed uint64) *plan.Plan {
 		for i := 0; i < r.Range(1, 5); i++ {
 			switch r.Intn(4) {
 			case 0, 1:
-				ops = append(ops, plan.Op{Op: "Reader", Doc: "d0", Opt: "o0", Reader: gen.RandReader(r, len(d.Bytes), r.Bool(), true)})
+				ops = append(ops, plan.Op{Op: "Reader", Doc: "d0", Opt: "o0", Reader: gen.RandReaderDoc(r, d.Bytes, r.Bool(), true)})
 			case 2:
-				fs := gen.RandFS(r, len(d.Bytes))
+				fs := gen.RandFSDoc(r, d.Bytes)
 				ops = append(ops, plan.Op{Op: "File", Doc: "d0", Opt: "o0", FS: fs})
 			case 3:
 				// the same bytes as a response body: net/http's own delivery (chunks, n>0 with EOF, reset mid-body)
@@ -569,6 +577,28 @@ func (c *Check) fixedC01() []*plan.Plan {
 		p.Tasks = [][]plan.Op{ops}
 		out = append(out, p)
 	}
+	// prefix sweep: a compact page truncated at EVERY byte offset (stream EOF), and a sample of
+	// offsets with a read error and as a truncated file — the stream consumer's "crash at an arbitrary instant"
+	for k := 0; k < 3; k++ {
+		sd := gen.SweepDoc(uint64(k))
+		c.noteDoc(sd)
+		n := len(sd.Bytes)
+		for lo := 0; lo <= n; lo += 150 {
+			p := c.newPlan("prefix-sweep", run, uint64(k), "bubble")
+			run++
+			p.Docs = []plan.Doc{plan.NewDoc("d0", sd.Bytes, sd.Origin)}
+			var ops []plan.Op
+			for at := lo; at < lo+150 && at <= n; at++ {
+				ops = append(ops, plan.Op{Op: "Reader", Doc: "d0", Reader: &plan.ReaderPlan{FaultAt: at, FaultKind: "eof"}})
+				if at%7 == 0 {
+					ops = append(ops, plan.Op{Op: "Reader", Doc: "d0", Reader: &plan.ReaderPlan{Chunks: []int{1}, FaultAt: at, FaultKind: "err:reset"}})
+					ops = append(ops, plan.Op{Op: "File", Doc: "d0", FS: &plan.FSPlan{Kind: "trunc", At: at}})
+				}
+			}
+			p.Tasks = [][]plan.Op{ops}
+			out = append(out, p)
+		}
+	}
 	// streams and files: every device behaviour once
 	{
 		p := c.newPlan("streams", run, 0, "bubble")
@@ -608,11 +638,11 @@ func (c *Check) randOp(r *gen.Rand, p *plan.Plan, docs []gen.GenDoc, faults bool
 		p.Trees = append(p.Trees, t)
 		return plan.Op{Op: "Apply", Tree: t.ID, Opt: opt}
 	case kind < 14:
-		return plan.Op{Op: "Reader", Doc: id, Opt: opt, Reader: gen.RandReader(r, n, faults, true)}
+		return plan.Op{Op: "Reader", Doc: id, Opt: opt, Reader: gen.RandReaderDoc(r, docs[di].Bytes, faults, true)}
 	case kind < 17:
 		op := plan.Op{Op: "File", Doc: id, Opt: opt}
 		if faults {
-			op.FS = gen.RandFS(r, n)
+			op.FS = gen.RandFSDoc(r, docs[di].Bytes)
 		}
 		return op
 	default:
